@@ -47,7 +47,7 @@ def run(run, tier, seed, replay=None):
     while len(designs) < n:
         r = core.rng(seed, "C01", "designs", k)
         k += 1
-        d = D.gen_design(r, size=r.choice([1, 2, 2, 3]) if quick else r.choice([1, 2, 3, 4]))
+        d = D.gen_design(r, size=r.choice([1, 2, 2, 3]) if quick else r.choice([1, 2, 3, 4]), reconnect=True)
         # the in-Coq evaluation of the net relation is quadratic in the number of terminal bits: keep designs bounded
         if len(D.terminals(d)[0]) > (120 if quick else 150):
             skipped += 1
@@ -62,7 +62,7 @@ def run(run, tier, seed, replay=None):
     run.stream("designs", len(designs), len({json.dumps(d) for d in designs if sum(D.features(d).values()) >= 3}),
                features=feats, rejected_by_impl=rejected, skipped_over_terminal_bound=skipped,
                rule="non-trivial = at least 3 of {refs, no-connects, arrays, slices, concats, hierarchy, external modules, negative steps}; distinct by design")
-    for f in ("refs", "ncs", "arrays", "slices", "concats", "hier", "exts", "negstep"):
+    for f in ("refs", "ncs", "arrays", "slices", "concats", "hier", "exts", "negstep", "reconnected"):
         if feats.get(f, 0) == 0:
             run.violation(f"C01:coverage:{f}", f"generator coverage target missed: no design with {f}", dict(kind="coverage"), found_input=False)
     report(run, "designs", bad, designs, outs)
